@@ -325,6 +325,11 @@ func genC07(env *Env, r *Rand, full bool) []Case {
 		for _, d := range []string{"DB nolabel", "DW nolabel", "DD nolabel", "DB NOEQU+1", "DW \"ab\"", "DD \"abcd\"", "RESB nolabel", "ALIGNB nolabel", "DW deflabel+nolabel", "DB 1,nolabel,2", "RESB nolabel-$"} {
 			cases = append(cases, &SilentCase{Mode: mode, Stmt: d, Mn: strings.Fields(d)[0], Shape: "data:" + strings.Fields(d)[1], Expect: "undefined-symbol", Cell_: "data " + d})
 		}
+		// lines that are not statements at all: lower-case and misspelt mnemonics, a word alone on its line, junk after a statement
+		for _, l := range []string{"hlt", "Ret", "nop", "cli", "HTL", "NOPE", "foo", "foo bar", "MOVE AX,1", "JMPP deflabel", "ADDD", "mov ax,1", "Mov AX,1", "mOV AX,1", "HLT X", "NOP NOP", "db 1", "Db 1",
+			"deflabel", "after", "DEFEQU", "AX", "5", "MOV", "hlt ; c", "_x", "x1", "RETT", "STII", "org 0", "equ", "X1 equ 5", "HLT:", "MOV AX 1", "MOV AX;1", "MOV,AX,1"} {
+			cases = append(cases, &SilentCase{Mode: mode, Stmt: l, Mn: strings.Fields(l + " .")[0], Shape: "notstmt:" + strings.ReplaceAll(l, " ", "_"), Expect: "invalid", Cell_: "notstmt " + l})
+		}
 		// forward reference in data after a branch has pre-seeded the symbol table
 		cases = append(cases, &SilentCase{Mode: mode, Stmt: "JNZ after\n\tDW after", Mn: "DW", Shape: "data:forward-after-branch", Expect: "fwd", Cell_: "data forward-after-branch"})
 	}
